@@ -365,6 +365,11 @@ func (s *Session) Write(b []byte) (n int, err error) {
 	for len(b) > 0 {
 		sizeToSend := mathext.Min(len(b), maxPDU)
 		if sent, err := s.writeChunk(b[:sizeToSend]); sent == 0 || err != nil {
+			// The bytes of the earlier chunks were accepted and are returned to
+			// the caller, so they are part of the user's traffic.
+			if n > 0 && !s.isClient && s.downloadBytes != nil {
+				s.downloadBytes.Add(int64(n))
+			}
 			return n, err
 		}
 		b = b[sizeToSend:]
